@@ -1198,7 +1198,16 @@ class Unit:
                         parts.setdefault((kk, -1 if num == "*" else int(num)), []).append(text + "\n")
                     i += 1
                 if isfn:
-                    self.do_fn(relfile, path, opts, parts, origin)
+                    nseg_ = len(self.segs)
+                    try:
+                        self.do_fn(relfile, path, opts, parts, origin)
+                    except AnchorLost as ex_:
+                        # the function (or a structural position its hints refer to) no longer exists: the unit is built without it.
+                        # Properties that tag it become undecided; the other properties of the unit are still decided (code that
+                        # calls the missing function does not compile, which is reported as undecided as well)
+                        del self.segs[nseg_:]
+                        self.lost = getattr(self, "lost", [])
+                        self.lost.append({"file": relfile, "path": path, "tags": [t for t in opts.get("tags", "").split(",") if t], "why": str(ex_)})
                 else:
                     self.do_item(relfile, path, opts, origin)
             elif d.startswith("#") or d.strip() == "":
@@ -1311,7 +1320,7 @@ class Unit:
         return text, {"unit": self.name, "line_starts": starts, "origins": origins, "rewrites": self.rewrites,
                       "functions": self.functions, "items": self.items, "trusted": self.trusted,
                       "bounded": self.bounded, "notdecided": self.notdecided, "sources": self.sources,
-                      "vac_ids": self.vac_ids, "vac_files": self.vac_files, "lemmas": self.lemmas}
+                      "vac_ids": self.vac_ids, "vac_files": self.vac_files, "lemmas": self.lemmas, "lost": getattr(self, "lost", [])}
 
 
 def origin_of(meta, line):
